@@ -93,7 +93,15 @@ def generate(rng, prop, tier):
         op['cached'] = rng.chance(0.5)
     elif kind == 'popkeys':
         op['ks'] = [p[0] for p in pre[:rng.randint(0, 2)]]
+    history = 0
+    if label == 'sql-file' and pre and rng.chance(0.2):
+        # a long-lived table: every store appends a row, so the table carries hundreds of superseded rows
+        history = -(-rng.choice([530, 1100]) // len(pre))
+        if rng.chance(0.7):
+            op = {'op': 'open', 'cached': rng.chance(0.5)} if rng.chance(0.6) else \
+                {'op': 'set', 'k': pre[0][0], 'v': enc(pick_v())}
     return {'engine': 'crashsim', 'prop': prop, 'backend': B.config(label, B.odd_name(rng, label, 'c0')),
+            'history': history,
             'ops': [{'op': 'pre', 'k': k, 'v': v} for k, v in pre], 'final': op,
             'order': rng.choice(['sorted', 'permute']), 'kseed': rng.below(1 << 30)}
 
@@ -350,6 +358,8 @@ def execute(case, prop, ctx):
             a = B.make(cfg, snap, cached=False)
             if pre:
                 a.update(pre)
+                for _ in range(case.get('history') or 0):
+                    a.update(pre)           # re-store the same contents: history rows, same dictionary
         return {'ok': True}
     code, out = in_child(build)
     if code != 0:
@@ -479,6 +489,10 @@ def simplify(case):
     if op.get('cached'):
         c = _copy.deepcopy(case)
         c['final']['cached'] = False
+        yield c
+    if case.get('history'):
+        c = _copy.deepcopy(case)
+        c['history'] = 0
         yield c
 
 
